@@ -38,6 +38,7 @@ type vfDir struct {
 	faultBudgeted bool
 	faultsLeft    int
 	faultsHit     int
+	seams         bool // Persist and Remove are scheduling points (tier 2)
 	loads      int
 	closes     int
 	freeOnLoad bool // Load returns a copy freed by its closer
@@ -144,7 +145,19 @@ func (d *vfDir) Load(kind string, id uint64) (*segment.Data, io.Closer, error) {
 	return segment.NewDataBytes(buf), c, nil
 }
 
+// vfSeam marks a point where real code does I/O or long computation: under the
+// tier-2 scheduler the goroutine yields there (another runnable goroutine may
+// run before it continues), as a real goroutine would be descheduled.
+func vfSeam() {
+	if vfScheduled() {
+		vfYield()
+	}
+}
+
 func (d *vfDir) Persist(kind string, id uint64, w WriterTo, closeCh chan struct{}) error {
+	if d.seams {
+		vfSeam()
+	}
 	if d.onPersist != nil {
 		d.onPersist(kind, id)
 	}
@@ -179,6 +192,9 @@ func (d *vfDir) put(kind string, id uint64, data []byte) {
 }
 
 func (d *vfDir) Remove(kind string, id uint64) error {
+	if d.seams {
+		vfSeam()
+	}
 	if d.onRemove != nil {
 		d.onRemove(kind, id)
 	}
@@ -454,6 +470,7 @@ const vfDocDropped = ^uint64(0) >> 1 // math.MaxInt64, the sentinel ice uses for
 // order, the docs of each input not in its drop set; DocumentNumbers maps each
 // old number to the new one (or the dropped sentinel).
 func vfMerge(segs []segment.Segment, drops []*roaring.Bitmap, id int) segment.Merger {
+	vfSeam() // merging is long-running work: other goroutines get to run here
 	var docs []vfDoc
 	var nums [][]uint64
 	for i, sg := range segs {
